@@ -43,7 +43,8 @@ def sites(path):
         if s.startswith("#[cfg(test)]"):
             in_test = True
         if in_test or s.startswith("//") or s.startswith("///") or s.startswith("#[") or "debug_" in l or "fmt::" in l or "panic!" in l \
-           or "assert" in l or s.startswith("use ") or "=>" in l and '"' in l:
+           or "assert" in l or s.startswith("use ") or ("=>" in l and '"' in l) or re.match(r"\s*(pub\s+)?(const\s+)?fn\s", l) \
+           or "::<" in l or s.startswith("impl") or s.startswith("pub struct") or s.startswith("pub enum") or s.startswith("where"):
             continue
         code = l.split("//")[0]
         if '"' in code:
@@ -76,7 +77,8 @@ def main():
         if ONLY and ONLY not in f:
             continue
         lines, ss = sites(f)
-        allsites += [(f, s) for s in ss]
+        rng.shuffle(ss)
+        allsites += [(f, s) for s in ss[:40]]        # at most 40 sites per file, so the big tables do not dominate
     rng.shuffle(allsites)
     log = open("/verif/work/mutation_log_%d.jsonl" % SEED, "a")
     done = 0
